@@ -25,14 +25,29 @@ PROPERTY = "C09"
 FIELDS = (("obs", 2), ("action", 1), ("reward", 1), ("next_obs", 2), ("done", 1))
 
 
-def mk_rows(v, name, nrows):
-    return TensorDict({f: v.tensor(f"{name}_{f}", (nrows, w)) for f, w in FIELDS}, batch_size=[nrows])
+NESTED = {"flat": None, "dict": ("img", "vec"), "tuple": ("0", "1")}     # dict / tuple observations are nested TensorDicts
+
+
+def mk_rows(v, name, nrows, obs_kind="flat"):
+    d = {}
+    for f, w in FIELDS:
+        if f in ("obs", "next_obs") and obs_kind != "flat":
+            k0, k1 = NESTED[obs_kind]
+            d[f] = TensorDict({k0: v.tensor(f"{name}_{f}_{k0}", (nrows, 1, 2)), k1: v.tensor(f"{name}_{f}_{k1}", (nrows, w))}, batch_size=[nrows])
+        else:
+            d[f] = v.tensor(f"{name}_{f}", (nrows, w))
+    return TensorDict(d, batch_size=[nrows])
 
 
 def row_vals(td, i):
     out = []
     for f, _ in FIELDS:
-        out += elems(td[f][i])
+        x = td[f]
+        if isinstance(x, TensorDict):
+            for k in sorted(x.keys()):
+                out += elems(x[k][i])
+        else:
+            out += elems(x[i])
     return out
 
 
@@ -44,10 +59,10 @@ class RingStep(Case):
     outside = ("tensordict's own tensorisation of dict/tuple observations",)
     site = "ReplayBuffer.add"
 
-    def __init__(self, N, n):
-        self.N, self.n = N, n
-        self.name = f"ring-step-N{N}-n{n}"
-        self.bounds = {"capacity": N, "rows_added": n, "symbolic": "count (hence cursor and size), all stored contents, all new contents"}
+    def __init__(self, N, n, obs_kind="flat"):
+        self.N, self.n, self.obs_kind = N, n, obs_kind
+        self.name = f"ring-step-N{N}-n{n}" + ("" if obs_kind == "flat" else f"-{obs_kind}-obs")
+        self.bounds = {"capacity": N, "rows_added": n, "observations": obs_kind, "symbolic": "count (hence cursor and size), all stored contents, all new contents"}
 
     def run(self, v):
         N, n = self.N, self.n
@@ -55,7 +70,7 @@ class RingStep(Case):
         require(buf, "_cursor", "_size", "_storage", "counter", "initialized", "max_size")
         c = v.int("count")
         v.assume(c >= 1)
-        pre = mk_rows(v, "pre", N)
+        pre = mk_rows(v, "pre", N, self.obs_kind)
         pre_vals = [row_vals(pre, i) for i in range(N)]
         buf._storage = pre
         buf.initialized = True
@@ -66,7 +81,7 @@ class RingStep(Case):
         before_clear = v.int("added_before_last_clear")
         v.assume(before_clear >= 0)
         buf.counter = c + before_clear
-        new = mk_rows(v, "new", n)
+        new = mk_rows(v, "new", n, self.obs_kind)
         new_vals = [row_vals(new, k) for k in range(n)]
         buf.add(new)
         obs = []
@@ -288,6 +303,7 @@ class MultiAgent(Case):
 
 def cases(tier):
     cs = [RingStep(3, 1), RingStep(3, 2), RingStep(4, 3), RingStep(4, 4), RingStep(1, 1), RingStep(5, 2),
+          RingStep(3, 2, "dict"), RingStep(4, 3, "tuple"),
           RingBase(3, 2, 2), RingBase(4, 1, 4), RingBase(2, 2, 1),
           UniformSample(3, 2), UniformSample(4, 2),
           MultiAgent(3, 2, 2), MultiAgent(4, 1, 2), MultiAgent(2, 3, 0, vect=False), MultiAgent(3, 0, 3, A=3)]
